@@ -10,6 +10,8 @@
 #include "vh.h"
 #include <photon/thread/workerpool.h>
 #include <photon/common/timeout.h>
+#include <photon/thread/stack-allocator.h>
+#include <sys/mman.h>
 
 using namespace photon;
 
@@ -94,6 +96,38 @@ static void pause_us(bool is_photon, uint64_t us) {
 template <typename F> static void wait_until(bool is_photon, F cond) {
     while (!cond()) pause_us(is_photon, 100);
 }
+
+// ------------------------------------------------------------------ thread stacks
+// In thread modes 0 / pooled every task (or pool thread) gets an 8 MB stack. Through photon's default allocator that is a
+// posix_memalign + madvise + free per task, which costs tens of milliseconds per task under ASan/TSan (shadow poisoning,
+// quarantine, page faults) and is not the subject of this property. Stack source per execution: 0 photon's default allocator
+// (fewer tasks), 1 a per-OS-thread cache of mmap-ed regions kept by the harness (no synchronisation between vCPUs, so it adds
+// no happens-before edge), 2 photon's own pooled allocator.
+static int g_stack_mode = 0;
+struct StackCache {
+    std::vector<void*> v;
+    ~StackCache() { for (auto p : v) munmap(p, DEFAULT_STACK_SIZE); }
+};
+static thread_local StackCache tl_stacks;
+struct CachingAllocator {
+    void* alloc(size_t size) {
+        if (size != DEFAULT_STACK_SIZE) return default_photon_thread_stack_alloc(nullptr, size);
+        auto& c = tl_stacks.v;
+        if (!c.empty()) { void* p = c.back(); c.pop_back(); return p; }
+        void* p = mmap(nullptr, size, PROT_READ | PROT_WRITE, MAP_PRIVATE | MAP_ANONYMOUS | MAP_NORESERVE, -1, 0);
+        if (p == MAP_FAILED) return nullptr;
+        mprotect(p, 4096, PROT_NONE);
+        return p;
+    }
+    void dealloc(void* ptr, size_t size) {
+        if (size != DEFAULT_STACK_SIZE) return default_photon_thread_stack_dealloc(nullptr, ptr, size);
+        auto& c = tl_stacks.v;
+        if (c.size() < 128) c.push_back(ptr); else munmap(ptr, size);
+    }
+    size_t trim(size_t) { return 0; }
+    StackPoolStats stats() { return {}; }
+};
+static CachingAllocator g_ca;
 
 // the executing vCPU must not be a submitter's one; at most vcpu_num distinct vCPUs execute the tasks of one pool
 static VSlot* note_vcpu(Rec* r, void* v) {
@@ -428,10 +462,25 @@ int main(int argc, char** argv) {
     uint64_t total = vh::args().geti("tasks", vh::args().thorough() ? 12000 : 3000);
     if (vh::is_tsan()) total /= 4;
     total /= vh::args().shape_div();
+    g_stack_mode = r.pick({0, 1, 1, 2, 2});
+    if (g_stack_mode == 0 && g_mode >= 0 && vh::is_asan()) g_stack_mode = 1;     // see "thread stacks" above
+    g_stack_mode = vh::args().geti("stacks", g_stack_mode);
+    if (g_stack_mode == 0 && g_mode >= 0) total /= 4;
+    if (g_stack_mode == 1 && set_photon_thread_stack_allocator(g_ca) != 0) vh::machinery_failure("cannot install the stack allocator");
+    if (g_stack_mode == 2) use_pooled_stack_allocator();
+    // photon::init() sets a process-wide plain bool (`reset_handle_registed`, photon.cpp) without synchronisation; the workers
+    // of a pool call photon::init() concurrently. Unless --cfg warm=0, one init/fini on the main thread sets the flag before
+    // any pool exists, so that TSan does not stop every multi-vCPU execution at that report (it is outside this property).
+    if (vh::args().geti("warm", 1)) {
+        if (photon::init(INIT_EVENT_NONE, INIT_IO_NONE) != 0) vh::machinery_failure("photon::init failed");
+        photon::fini();
+        if (CURRENT) vh::machinery_failure("CURRENT is still set after photon::fini()");
+    }
     g_tasks_per_sub = std::max<uint64_t>(4, total / g_rounds / g_nsub);
 
     vh::config("vcpu_num", g_nv); vh::config("mode", g_mode); vh::config("ring_size", g_ring); vh::config("event_engine", (int64_t)g_ev);
     vh::config("photon_submitters", std::to_string(g_np) + "x" + std::to_string(g_tpv)); vh::config("os_submitters", g_no);
+    vh::config("stacks", g_stack_mode == 0 ? "default" : g_stack_mode == 1 ? "harness-cache" : "photon-pooled");
     vh::config("rounds", g_rounds); vh::config("tasks_per_submitter_per_round", (int64_t)g_tasks_per_sub);
     using namespace photon::verif;
     vh::arm_stalls(r, {P_WORKPOOL_AFTER_CREATE, P_SEM_SIGNAL_AFTER_RESUME, P_SEM_WAIT_AFTER_DEFER, P_WAITQ_RESUME, P_PRELOCKED_INTERRUPT,
@@ -482,7 +531,7 @@ int main(int argc, char** argv) {
                       (ring_full + c_running_at_dtor.get() + c_queued_at_dtor.get() + c_overlap.get() + c_reuse.get()) > 0;
     auto b = [](int64_t v) { return std::to_string(vh::log2bucket(v)); };
     vh::set_sig("v" + std::to_string(g_nv) + "|m" + std::to_string(g_mode) + "|r" + std::to_string(g_ring) + "|e" + std::to_string(g_ev) +
-                    "|p" + std::to_string(g_np) + "x" + std::to_string(g_tpv) + "|o" + std::to_string(g_no) + "|" +
+                    "|p" + std::to_string(g_np) + "x" + std::to_string(g_tpv) + "|o" + std::to_string(g_no) + "|s" + std::to_string(g_stack_mode) + "|" +
                     vh::cov_signature({C_WORKPOOL_RING_FULL, C_WORKPOOL_NEW_THREAD}) + "dtor:" + b(c_running_at_dtor.get()) + "/" + b(c_queued_at_dtor.get()) +
                     ",ovl:" + b(c_overlap.get()) + ",reuse:" + b(c_reuse.get()),
                 nontrivial);
